@@ -176,6 +176,8 @@ impl<CS: CipherSuite> State<CS> {
 
     /// Load the current `read_off` from `shm`.
     fn read_off(&self, shm: &SharedMem<CS>) -> Result<Offset, Corrupted> {
+        #[cfg(aranya_verif)]
+        crate::verif::point("shared.read_off.load");
         let off = shm.read_off.load(Ordering::SeqCst);
         if unlikely!(!self.valid_offset(off)) {
             Err(corrupted("invalid read offset"))
@@ -186,6 +188,8 @@ impl<CS: CipherSuite> State<CS> {
 
     /// Load the current `write_off` from `shm`.
     pub(super) fn write_off(&self, shm: &SharedMem<CS>) -> Result<Offset, Corrupted> {
+        #[cfg(aranya_verif)]
+        crate::verif::point("shared.write_off.load");
         let off = shm.write_off.load(Ordering::SeqCst);
         if unlikely!(!self.valid_offset(off)) {
             Err(corrupted("invalid write offset"))
@@ -200,6 +204,8 @@ impl<CS: CipherSuite> State<CS> {
         shm: &SharedMem<CS>,
         write_off: Offset,
     ) -> Result<Offset, Corrupted> {
+        #[cfg(aranya_verif)]
+        crate::verif::point("shared.swap_offsets.swap");
         let off = shm.read_off.swap(write_off.into(), Ordering::SeqCst);
         if unlikely!(!self.valid_offset(off)) {
             Err(corrupted("invalid write offset"))
@@ -826,7 +832,11 @@ impl<CS: CipherSuite> ChanListData<CS> {
 
     /// Truncates the list.
     pub fn clear(&mut self) {
+        #[cfg(aranya_verif)]
+        crate::verif::point("shared.clear.len");
         self.len = U64::new(0);
+        #[cfg(aranya_verif)]
+        crate::verif::point("shared.clear.gen");
         self.generation.fetch_add(1, Ordering::AcqRel);
     }
 
@@ -916,6 +926,8 @@ impl<CS: CipherSuite> ChanListData<CS> {
             if !updated {
                 // As a precaution, update the generation before
                 // we actually delete anything.
+                #[cfg(aranya_verif)]
+                crate::verif::point("shared.remove_if.gen");
                 let generation = self.generation.fetch_add(1, Ordering::AcqRel);
                 debug!("side generation={}", generation + 1);
 
@@ -967,11 +979,17 @@ impl<CS: CipherSuite> ChanListData<CS> {
                 })
         {
             debug!("used hint {hint:?} for {ch}");
+            #[cfg(aranya_verif)]
+            crate::verif::probe("list.hint_hit");
             return Ok(Some((chan, hint)));
         }
 
         // The index (if any) wasn't valid, so fall back to
         // a linear search.
+        #[cfg(aranya_verif)]
+        if hint.is_some() {
+            crate::verif::probe("list.hint_stale");
+        }
         if let Some((idx, chan)) = self.try_iter()?.enumerate().try_find(|(_, chan)| {
             let ok = chan.id()? == ch && chan.matches(op)?;
             Ok::<bool, Corrupted>(ok)
@@ -1009,6 +1027,8 @@ impl<CS: CipherSuite> ChanListData<CS> {
                 .map(|chan| -> *mut ShmChan<CS> { chan })
         {
             debug!("used hint {hint:?} for {ch}");
+            #[cfg(aranya_verif)]
+            crate::verif::probe("list.hint_hit");
             // SAFETY: `chan` is borrowed from self then
             // immediately returned. The lifetime of the
             // returned value is tied to self.
@@ -1017,6 +1037,10 @@ impl<CS: CipherSuite> ChanListData<CS> {
 
         // The index (if any) wasn't valid, so fall back to
         // a linear search.
+        #[cfg(aranya_verif)]
+        if hint.is_some() {
+            crate::verif::probe("list.hint_stale");
+        }
         if let Some((idx, chan)) = self.try_iter_mut()?.enumerate().try_find(|(_, chan)| {
             let ok = chan.id()? == ch && chan.matches(op)?;
             Ok::<bool, Corrupted>(ok)
@@ -1040,9 +1064,13 @@ impl<CS: CipherSuite> ChanListData<CS> {
         } else {
             // No need to perform a swap if there is only one
             // channel.
+            #[cfg(aranya_verif)]
+            crate::verif::point("shared.swap_remove.swap");
             if len > 1 {
                 self.chans_mut()?.swap(idx, len - 1);
             }
+            #[cfg(aranya_verif)]
+            crate::verif::point("shared.swap_remove.len");
             self.len -= 1;
             assert!(self.len <= self.cap);
             Ok(())
@@ -1084,6 +1112,45 @@ impl KeyId {
             reason = "The compiler proves that this does not panic."
         )]
         Self(id[..16].try_into().unwrap())
+    }
+}
+
+/// Observation points for verification harnesses.
+#[cfg(aranya_verif)]
+impl<CS: CipherSuite> State<CS> {
+    /// Returns the address and the size in bytes of the mapped
+    /// [`SharedMem`].
+    pub(super) fn verif_region(&self) -> (usize, usize) {
+        let shm = self.shm();
+        let size = usize::try_from(u64::from(shm.size)).unwrap_or(0);
+        (ptr::from_ref::<SharedMem<CS>>(shm) as usize, size)
+    }
+
+    /// Locks the current read list like a reader does and calls
+    /// `f` with the ID of each channel in it, in list order.
+    /// Returns the list's generation.
+    pub(super) fn verif_read_snapshot(&self, f: &mut dyn FnMut(u64)) -> Result<u32, Error> {
+        let list = self.load_read_list()?.lock().assume("poisoned")?;
+        for chan in list.try_iter()? {
+            f(chan.id()?.to_u64());
+        }
+        Ok(list.generation.load(Ordering::Relaxed))
+    }
+
+    /// Locks side A (`side == 0`) or side B (`side == 1`) and
+    /// calls `f` with the ID of each channel in it, in list order.
+    /// Returns the side's generation.
+    pub(super) fn verif_side_snapshot(
+        &self,
+        side: usize,
+        f: &mut dyn FnMut(u64),
+    ) -> Result<u32, Error> {
+        let off = Offset(if side == 0 { self.side_a } else { self.side_b });
+        let list = self.shm().side(off)?.lock().assume("poisoned")?;
+        for chan in list.try_iter()? {
+            f(chan.id()?.to_u64());
+        }
+        Ok(list.generation.load(Ordering::Relaxed))
     }
 }
 
